@@ -49,6 +49,13 @@ func c14CanonOp(v interface{}) interface{} {
 			return map[string]interface{}{"$not": c14CanonOp(x)}
 		case "$eq", "$ne", "$gt", "$gte", "$lt", "$lte", "$in":
 			return map[string]interface{}{k: Tag(x)}
+		case "$elemMatch":
+			if em, ok := x.(bson.M); ok && len(em) == 1 {
+				if a, ok := em["$eq"]; ok {
+					return map[string]interface{}{k: map[string]interface{}{"$eq": Tag(a)}}
+				}
+			}
+			return map[string]interface{}{"unk": "op:$elemMatch"}
 		case "$exists":
 			if b, ok := x.(bool); ok {
 				return map[string]interface{}{k: b}
